@@ -124,6 +124,22 @@ def run(ctx):
         ctx.sample_lines(files[0], 3, maxlen=900)
     rc.validate_parallel(ctx, jobs, jobs_at_once=3 if quick else 4)
 
+    # ---- in situ: the real callers (CopySpace::trace_object, Immix opportunistic copy) --------------
+    # The races above drive the forwarding functions through re-implementations of their callers'
+    # protocols; the callers themselves run in whole collections with several workers, hub objects
+    # that many roots refer to, and a delay inside ObjectModel::copy (the winner holds the object in
+    # the "being forwarded" state). A tracer that returns anything but the winner's copy shows as a
+    # wrong graph: HeapTrace's graph guards (C01 tags) are claimed here.
+    from props import heapcommon as hc
+    plans = ["SemiSpace", "GenCopy"] if quick else ["SemiSpace", "GenCopy", "GenImmix", "Immix", "StickyImmix"]
+    wruns = []
+    for i, p in enumerate(plans):
+        wruns.append(hc.Run(p, name="copydelay", workers=4, mutators=3, programs=4 if quick else 15,
+                            ops=100, sems="0,0,0,0,2", seed_off=60 + i, extra=["--copydelay", "--nochurn"],
+                            opts="immix_always_defrag=true,immix_defrag_every_block=true"
+                            if "Immix" in p else ""))
+    ctx.cov["in_situ_callers"] = hc.execute(ctx, wruns, ("C17:", "C01:"))
+
     # ---- binding demonstration (vacuity control of the trace specification) -----------------------
     if files and (not quick or os.environ.get("VERIF_DEMO")):
         rc.binding_demo(ctx, sd, TRACE_SPEC[0], TRACE_SPEC[1], files[0], "Fwd", _corrupt_ret, "demo_ret")
